@@ -61,6 +61,8 @@ def plan(tier, d0=None, dseed=None):
             p.append(("empty", mode, d0 - 1, "extreme"))
             p.append(("empty", mode, d0 - 1, "negative"))
             p.append(("empty", mode, d0 - 1, "npvol"))
+            for shp in ("copied_orders", "copied_odd_orders", "npside_orders", "intside_orders"):
+                p.append((shp, mode, d0 - 1, "quick"))
             p.append(("tick01", mode, d0 - 1, "dec01"))
             p.append(("tick1e5", mode, d0 - 1, "fine"))
             p.append(("quartertick", mode, d0 - 1, "quarter"))
@@ -76,6 +78,8 @@ def plan(tier, d0=None, dseed=None):
             p.append(("empty", mode, d0 - 1, "extreme"))
             p.append(("empty", mode, d0 - 1, "negative"))
             p.append(("empty", mode, d0 - 1, "npvol"))
+            for shp in ("copied_orders", "copied_odd_orders", "npside_orders", "intside_orders"):
+                p.append((shp, mode, d0 - 1, "quick"))
             p.append(("tick01", mode, d0 - 1, "dec01"))
             p.append(("tick1e5", mode, d0 - 1, "fine"))
             p.append(("quartertick", mode, d0 - 1, "quarter"))
@@ -125,7 +129,7 @@ def run_generic(pid, tier, seed, mon_factory, required_witness, rule, assumption
 
 
 def replay_generic(payload, mon_factory):
-    if payload.get("engine") == "F" and payload.get("grid") in ("deep_one_sided_books", "heap_layouts", "books_with_ties"):
+    if payload.get("engine") == "F" and payload.get("grid") in ("deep_one_sided_books", "heap_layouts", "heap_layouts_with_expiries", "books_with_ties"):
         from .. import heap_stress
         v = heap_stress.replay(payload, mon_factory)
         if v is None:
